@@ -168,7 +168,24 @@ func (o *WorkerOut) write() {
 
 // judge splits a run's violations of this property into known and new.
 func judge(def *PropDef, known map[string]string, r *world.Result, out *WorkerOut) *world.Violation {
+	return judgePlan(def, known, r, out, nil)
+}
+
+// judgePlan is judge; with VERIF_SAVE_KNOWN=<dir> the first plan matching each known
+// finding is written there as a replay file (used to refresh findings/*.json).
+func judgePlan(def *PropDef, known map[string]string, r *world.Result, out *WorkerOut, plan *world.Plan) *world.Violation {
 	var fresh *world.Violation
+	if dir := os.Getenv("VERIF_SAVE_KNOWN"); dir != "" && plan != nil {
+		for i := range r.Violations {
+			v := r.Violations[i]
+			if k, ok := matchKnown(known, v.Sig); ok && v.Prop == def.ID && out.Known[k] == 0 {
+				doc := &replayDoc{Prop: def.ID, Sig: v.Sig, Detail: v.Detail, Seed: *fSeed, LogHash: r.LogHash, Plan: plan, Violation: &r.Violations[i]}
+				b, _ := json.MarshalIndent(doc, "", " ")
+				os.MkdirAll(dir, 0o755)
+				os.WriteFile(fmt.Sprintf("%s/known-%s-%d-%d-%d.json", dir, def.ID, *fSeed, len(out.Known), i), b, 0o644)
+			}
+		}
+	}
 	for i := range r.Violations {
 		v := r.Violations[i]
 		if v.Prop != def.ID {
@@ -266,7 +283,7 @@ func searchMode(t *testing.T, def *PropDef, known map[string]string, out *Worker
 		if !shrinking {
 			out.absorb(def, p, r)
 		}
-		v := judge(def, known, r, out)
+		v := judgePlan(def, known, r, out, p)
 		if v == nil {
 			return
 		}
@@ -331,6 +348,8 @@ func enumMode(t *testing.T, def *PropDef, known map[string]string, out *WorkerOu
 			return
 		}
 		base := def.Gen(rt, "enum-base")
+		varyBase(base, int(*fSeed%1000)+7*enumBases)
+		enumBases++
 		br := world.Run(t, base, def.Monitors)
 		out.absorb(def, base, br)
 		if v := judge(def, known, br, out); v != nil {
@@ -343,7 +362,7 @@ func enumMode(t *testing.T, def *PropDef, known map[string]string, out *WorkerOu
 			r := world.Run(t, p, def.Monitors)
 			out.absorb(def, p, r)
 			out.EnumDone++
-			if v := judge(def, known, r, out); v != nil {
+			if v := judgePlan(def, known, r, out, p); v != nil {
 				fail = &replayDoc{Prop: def.ID, Sig: v.Sig, Detail: v.Detail, Seed: *fSeed, LogHash: r.LogHash, Plan: p, Trace: r.Log, Violation: v}
 				return
 			}
@@ -364,5 +383,34 @@ func enumMode(t *testing.T, def *PropDef, known map[string]string, out *WorkerOu
 		b, _ := json.MarshalIndent(fail, "", " ")
 		os.WriteFile(path, b, 0o644)
 		out.ReplayFile = path
+	}
+}
+
+var enumBases int
+
+// varyBase walks the base schedules of the single-crash enumeration through swap
+// type x payment outcome systematically (the rest of the base stays as drawn):
+// worker i of a batch and its j-th base get combination i+7j. Payment outcomes:
+// all succeed / the first attempt fails (fee payment of a swap-out, claim
+// payment of a swap-in) / the second fails (claim payment of a swap-out) -
+// so that the failure paths (cancel, coop close) are crashed at every point too.
+func varyBase(p *world.Plan, k int) {
+	if k < 0 {
+		k = -k
+	}
+	if len(p.Ops) == 0 || (p.Ops[0].Kind != "swapout" && p.Ops[0].Kind != "swapin") {
+		return
+	}
+	p.Ops[0].Kind = []string{"swapout", "swapin"}[k%2]
+	if p.Ops[0].Limit < 50000 {
+		p.Ops[0].Limit = 50000 // a base that is refused for its premium limit exercises nothing
+	}
+	switch (k / 2) % 3 {
+	case 0:
+		p.LN = []world.LNFault{{Idx: 1, Kind: "fail"}}
+	case 1:
+		p.LN = nil
+	case 2:
+		p.LN = []world.LNFault{{Idx: 2, Kind: "fail"}}
 	}
 }
